@@ -67,3 +67,98 @@ theorem pairingHopcroft_zero (a b : Nat) (h : a = 0 ∨ b = 0) : pairingHopcroft
 end P
 #print axioms P.pairingCantor_injective
 #print axioms P.pairingHopcroft_injective
+
+namespace P
+
+/-- Szudzik's pairing on naturals (what `pairing_szudzik` computes when nothing wraps) -/
+def szudzikNat (a b : Nat) : Nat := if a < b then b * b + a else a * a + a + b
+
+theorem szudzik_bounds (a b : Nat) :
+    max a b * max a b ≤ szudzikNat a b ∧ szudzikNat a b < (max a b + 1) * (max a b + 1) := by
+  unfold szudzikNat
+  by_cases h : a < b
+  · rw [if_pos h, Nat.max_eq_right (Nat.le_of_lt h)]
+    have e : (b + 1) * (b + 1) = b * b + 2 * b + 1 := by
+      rw [Nat.add_mul, Nat.mul_add, Nat.mul_one, Nat.one_mul]; omega
+    rw [e]; omega
+  · rw [if_neg h, Nat.max_eq_left (Nat.le_of_not_lt h)]
+    have e : (a + 1) * (a + 1) = a * a + 2 * a + 1 := by
+      rw [Nat.add_mul, Nat.mul_add, Nat.mul_one, Nat.one_mul]; omega
+    rw [e]; omega
+
+/-- **Szudzik's pairing is injective on naturals**: distinct keys can only collide through the 64-bit
+wrap-around (which `C18_hash_is_not_identity` exhibits) -/
+theorem szudzikNat_injective {a b c d : Nat} (h : szudzikNat a b = szudzikNat c d) : a = c ∧ b = d := by
+  have h1 := szudzik_bounds a b
+  have h2 := szudzik_bounds c d
+  have hm : max a b = max c d := by
+    apply Classical.byContradiction
+    intro hne
+    rcases Nat.lt_or_gt_of_ne hne with hlt | hgt
+    · have := Nat.mul_self_le_mul_self (show max a b + 1 ≤ max c d from hlt)
+      omega
+    · have := Nat.mul_self_le_mul_self (show max c d + 1 ≤ max a b from hgt)
+      omega
+  unfold szudzikNat at h
+  by_cases c1 : a < b <;> by_cases c2 : c < d
+  · rw [if_pos c1, if_pos c2] at h
+    rw [Nat.max_eq_right (Nat.le_of_lt c1), Nat.max_eq_right (Nat.le_of_lt c2)] at hm
+    subst hm; omega
+  · rw [if_pos c1, if_neg c2] at h
+    rw [Nat.max_eq_right (Nat.le_of_lt c1), Nat.max_eq_left (Nat.le_of_not_lt c2)] at hm
+    subst hm; omega
+  · rw [if_neg c1, if_pos c2] at h
+    rw [Nat.max_eq_left (Nat.le_of_not_lt c1), Nat.max_eq_right (Nat.le_of_lt c2)] at hm
+    subst hm; omega
+  · rw [if_neg c1, if_neg c2] at h
+    rw [Nat.max_eq_left (Nat.le_of_not_lt c1), Nat.max_eq_left (Nat.le_of_not_lt c2)] at hm
+    subst hm; omega
+
+/-- the model's `pairingSzudzik` on 64-bit words is that function whenever both arguments are below
+`2^32` except that the result is reduced modulo `2^64` — and for arguments below `2^32 - 1` nothing is lost -/
+theorem pairingSzudzik_small (a b : UInt64) (ha : a.toNat < 4294967295) (hb : b.toNat < 4294967295) :
+    (pairingSzudzik a b).toNat = szudzikNat a.toNat b.toNat := by
+  have hbb : b.toNat * b.toNat < 4294967295 * 4294967295 := Nat.mul_lt_mul'' hb hb
+  have haa : a.toNat * a.toNat < 4294967295 * 4294967295 := Nat.mul_lt_mul'' ha ha
+  unfold pairingSzudzik szudzikNat
+  by_cases h : a < b
+  · have h' : a.toNat < b.toNat := by simpa [UInt64.lt_iff_toNat_lt] using h
+    rw [if_pos h, if_pos h', UInt64.toNat_add, UInt64.toNat_mul]
+    omega
+  · have h' : ¬ a.toNat < b.toNat := by simpa [UInt64.lt_iff_toNat_lt] using h
+    rw [if_neg h, if_neg h', UInt64.toNat_add, UInt64.toNat_add, UInt64.toNat_mul]
+    omega
+
+end P
+#print axioms P.szudzikNat_injective
+#print axioms P.pairingSzudzik_small
+
+namespace P
+
+theorem Ref.raw_inj {r r' : Ref} (h : r.raw = r'.raw) : r = r' := by
+  cases r with | mk i n => cases r' with | mk j m =>
+  simp only [Ref.raw] at h
+  cases n <;> cases m <;> simp at h ⊢ <;> omega
+
+/-- the 64-bit hash of a *pair* of handles identifies the pair in every manager the constructors admit
+(indices below `2^31 − 1`): Constrain / Restrict keys never collide with a key of the same kind through
+the hash — collisions need a third word (the ITE keys and the node triples, where the outer pairing
+wraps: `C18_hash_is_not_identity`) -/
+theorem pair_hash_injective {f g f' g' : Ref}
+    (hf : f.raw < 4294967295) (hg : g.raw < 4294967295) (hf' : f'.raw < 4294967295) (hg' : g'.raw < 4294967295)
+    (h : (MyHash.hash (f, g) : UInt64) = MyHash.hash (f', g')) : f = f' ∧ g = g' := by
+  have e : ∀ r : Ref, r.raw < 4294967295 → (MyHash.hash r : UInt64).toNat = r.raw := by
+    intro r hr
+    show (UInt64.ofNat r.raw).toNat = r.raw
+    rw [UInt64.toNat_ofNat']; omega
+  have h' := congrArg UInt64.toNat h
+  change (pairingSzudzik (MyHash.hash f) (MyHash.hash g)).toNat =
+    (pairingSzudzik (MyHash.hash f') (MyHash.hash g')).toNat at h'
+  rw [pairingSzudzik_small _ _ (by rw [e f hf]; exact hf) (by rw [e g hg]; exact hg),
+      pairingSzudzik_small _ _ (by rw [e f' hf']; exact hf') (by rw [e g' hg']; exact hg'),
+      e f hf, e g hg, e f' hf', e g' hg'] at h'
+  obtain ⟨a, b⟩ := szudzikNat_injective h'
+  exact ⟨Ref.raw_inj a, Ref.raw_inj b⟩
+
+end P
+#print axioms P.pair_hash_injective
